@@ -82,7 +82,11 @@ def fstring(it, n):
 def list_from_lambda(it, elem_sort, n, fn):
     """list of length n whose i-th element is fn(i) (V of elem_sort)"""
     i = z3.Int(S.fresh_name("li"))
-    e = it.coerce(fn(i), elem_sort)
+    it.qdepth += 1
+    try:
+        e = it.coerce(fn(i), elem_sort)
+    finally:
+        it.qdepth -= 1
     arrs = tuple(z3.Lambda([i], t) for t in e.terms)
     return S.TList(elem_sort).make(n, arrs)
 
@@ -547,6 +551,7 @@ def filtered_list(it, n, cond, elt, elem_sort):
 def _with_bound(it, target, v, thunk):
     saved = it.bound
     it.bound = dict(saved)
+    it.qdepth += 1
     try:
         if isinstance(target, ast.Name):
             it.bound[target.id] = v
@@ -560,6 +565,7 @@ def _with_bound(it, target, v, thunk):
         return thunk()
     finally:
         it.bound = saved
+        it.qdepth -= 1
 
 
 def quantify_over(it, dom, lam, universal):
@@ -615,12 +621,14 @@ def quantify_over(it, dom, lam, universal):
     it.bound = dict(lam[3])
     it.bound.update(binds)
     saved_locals = it.st.locals
+    it.qdepth += 1
     try:
         body = it.ev(ln.body)
         body = it.truthy(body) if not (isinstance(body, V) and body.sort is TBool) else body.t
     finally:
         it.bound = saved
         it.st.locals = saved_locals
+        it.qdepth -= 1
     g = z3.And(*guards) if guards else z3.BoolVal(True)
     if universal:
         return mk_bool(z3.ForAll(bvars, z3.Implies(g, body)))
@@ -642,6 +650,44 @@ def call_special(it, n):
         *doms, lam = n.args
         dvals = [spec_domain(it, d) for d in doms]
         return quantify_over(it, dvals if len(dvals) > 1 else dvals[0], it.ev(lam), name == "forall")
+    if name == "unfold":
+        # unfold(f(args)): the defining equation of a @recursive spec function at these arguments (may mention bound variables)
+        c = n.args[0]
+        if not (isinstance(c, ast.Call) and isinstance(c.func, ast.Name) and c.func.id in it.m.fns and it.m.fns[c.func.id].kind == "recursive"):
+            raise OutOfSubset("unfold() needs a call of a @recursive spec function")
+        fs = it.m.fns[c.func.id]
+        args = [it.ev(a) for a in c.args]
+        env = it.bind_args(fs.params, args, {}, fs.name)
+        saved = it.unfolding
+        it.unfolding = True
+        try:
+            app = it.call_spec(fs, args, {})
+            body = it.eval_pure_body(fs, env, unfolding=True)
+        finally:
+            it.unfolding = saved
+        return mk_bool(fs.ret.eq(app, it.coerce(body, fs.ret)))
+    if name == "result_of":
+        # result_of("Callee", k): the value returned by the k-th call (in path order) of that contract in this function
+        key = (ast.literal_eval(n.args[0]), ast.literal_eval(n.args[1]))
+        if key not in it.call_results:
+            raise OutOfSubset(f"result_of{key}: no such call on this path")
+        return it.call_results[key]
+    if name == "ghost_of":
+        key = (ast.literal_eval(n.args[0]), ast.literal_eval(n.args[1]), ast.literal_eval(n.args[2]))
+        if key not in it.call_ghosts:
+            raise OutOfSubset(f"ghost_of{key}: no such ghost on this path")
+        return it.call_ghosts[key]
+    if name == "identical":
+        a, b = it.ev(n.args[0]), it.ev(n.args[1])
+        a, b = it.unify(a, b)
+        return mk_bool(z3.And(*[x == y for x, y in zip(a.terms, b.terms)]))
+    if name == "fresh":
+        # allocated by this call/function: not allocated in the old state, allocated now
+        v = it.ev(n.args[0])
+        return mk_bool(z3.And(z3.Not(z3.Select(it.old_st.alloc, v.t)), z3.Select(it.st.alloc, v.t)))
+    if name == "allocated_before":
+        v = it.ev(n.args[0])
+        return mk_bool(z3.Select(it.old_st.alloc, v.t))
     if name == "implies":
         a, b = it.ev_spec(n.args[0]) if it.spec else it.truthy(it.ev(n.args[0])), None
         b = it.ev_spec(n.args[1]) if it.spec else it.truthy(it.ev(n.args[1]))
